@@ -386,8 +386,10 @@ def msg_sort(schema):
         return s
     _SORTS[schema.fq] = (None, None)  # recursion guard
     layout = field_layout(schema)
-    dt = z3.Datatype(schema.fq.replace('.', '_'))
-    dt.declare('mk', *[('f_' + n, s) for n, s, _, _ in layout])
+    safe = schema.fq.replace('.', '_')
+    dt = z3.Datatype(safe)
+    # constructor / selector names are unique per message type (SMT-LIB export for the second solver needs that)
+    dt.declare('mk_' + safe, *[(safe + '__' + n, s) for n, s, _, _ in layout])
     dt = dt.create()
     _SORTS[schema.fq] = (dt, layout)
     _ACC[schema.fq] = {n: dt.accessor(0, i) for i, (n, _, _, _) in enumerate(layout)}
@@ -409,10 +411,18 @@ def option_sort(schema):
     key = 'Opt:' + schema.fq
     if key not in _SORTS:
         s = msg_sort(schema)
-        dt = z3.Datatype('Opt_' + schema.fq.replace('.', '_'))
-        dt.declare('none')
-        dt.declare('some', ('v', s))
-        _SORTS[key] = (dt.create(), None)
+        safe = schema.fq.replace('.', '_')
+        dt = z3.Datatype('Opt_' + safe)
+        dt.declare('none_' + safe)
+        dt.declare('some_' + safe, ('v_' + safe, s))
+        dt = dt.create()
+        # stable python-side aliases (the SMT names are unique per type for SMT-LIB export)
+        dt.none = getattr(dt, 'none_' + safe)
+        dt.some = getattr(dt, 'some_' + safe)
+        dt.v = getattr(dt, 'v_' + safe)
+        dt.is_some = getattr(dt, 'is_some_' + safe)
+        dt.is_none = getattr(dt, 'is_none_' + safe)
+        _SORTS[key] = (dt, None)
     return _SORTS[key][0]
 
 
